@@ -285,13 +285,13 @@ theorem bufEmpty_snoc (buf : List Piece) (t : Tok) (ht : t.ok = true) (mid : Lis
 theorem updateBuffer_spec (s : PState) (t : Tok) :
     ∃ mid, (s.updateBuffer t).buf = s.buf ++ mid ++ [ptok t] ∧ toks mid = [] ∧
       (s.updateBuffer t).result = s.result ∧ (s.updateBuffer t).mode = s.mode ∧
-      (s.updateBuffer t).isMetaVar = s.isMetaVar := by
+      (s.updateBuffer t).isMetaVar = s.isMetaVar ∧ (mid = [] ∨ mid = [sp]) := by
   unfold PState.updateBuffer
   split
-  · exact ⟨[], by simp, rfl, rfl, rfl, rfl⟩
+  · exact ⟨[], by simp, rfl, rfl, rfl, rfl, Or.inl rfl⟩
   · split
-    · exact ⟨[sp], by simp, rfl, rfl, rfl, rfl⟩
-    · exact ⟨[], by simp, rfl, rfl, rfl, rfl⟩
+    · exact ⟨[sp], by simp, rfl, rfl, rfl, rfl, Or.inr rfl⟩
+    · exact ⟨[], by simp, rfl, rfl, rfl, rfl, Or.inl rfl⟩
 
 theorem stepTok_inv {s s' : PState} {t : Tok} (ht : t.ok = true) (hg : s.good)
     (h : stepTok s t = some s') :
@@ -375,7 +375,7 @@ theorem stepTok_inv {s s' : PState} {t : Tok} (ht : t.ok = true) (hg : s.good)
         · cases h
         · injection h with h
           subst h
-          obtain ⟨mid, hbuf, hmid, hres, hmode, hmv⟩ :=
+          obtain ⟨mid, hbuf, hmid, hres, hmode, hmv, _⟩ :=
             updateBuffer_spec ⟨buf, startTok, isMetaVar, lastTok, result, .normal⟩ t
           generalize PState.updateBuffer ⟨buf, startTok, isMetaVar, lastTok, result, .normal⟩ t = u at *
           obtain ⟨ubuf, ust, umv, ult, ures, umode⟩ := u
@@ -986,5 +986,492 @@ theorem replaceNames_segs {input r : List Char} {substs : List Subst}
           rcases b1 e he with h4 | h4
           · simp at h4
           · exact h4
+
+
+/-! ## Part 3: what the formatter adds between the tokens is white space -/
+
+def blankChar (c : Char) : Prop := c = ' ' ∨ c = '\n' ∨ c = '\t'
+
+/-- every white-space piece consists of blanks, line feeds and tabs -/
+def wsOk (ps : List Piece) : Prop := ∀ cs, Piece.ws cs ∈ ps → ∀ c ∈ cs, blankChar c
+
+theorem wsOk_nil : wsOk [] := by intro cs h; cases h
+theorem wsOk_append {a b : List Piece} : wsOk (a ++ b) ↔ wsOk a ∧ wsOk b := by
+  unfold wsOk
+  constructor
+  · intro h
+    exact ⟨fun cs hc => h cs (List.mem_append_left _ hc), fun cs hc => h cs (List.mem_append_right _ hc)⟩
+  · intro ⟨h1, h2⟩ cs hc
+    rcases List.mem_append.mp hc with hc | hc
+    · exact h1 cs hc
+    · exact h2 cs hc
+theorem wsOk_cons_ft (t : FTok) {ps : List Piece} : wsOk (.ft t :: ps) ↔ wsOk ps := by
+  unfold wsOk
+  constructor
+  · intro h cs hc; exact h cs (List.mem_cons_of_mem _ hc)
+  · intro h cs hc
+    rcases List.mem_cons.mp hc with hc | hc
+    · cases hc
+    · exact h cs hc
+theorem wsOk_cons_ws (cs : List Char) {ps : List Piece} :
+    wsOk (.ws cs :: ps) ↔ (∀ c ∈ cs, blankChar c) ∧ wsOk ps := by
+  unfold wsOk
+  constructor
+  · intro h
+    exact ⟨h cs List.mem_cons_self, fun x hx => h x (List.mem_cons_of_mem _ hx)⟩
+  · intro ⟨h1, h2⟩ x hx
+    rcases List.mem_cons.mp hx with hx | hx
+    · injection hx with hx; subst hx; exact h1
+    · exact h2 x hx
+theorem wsOk_sp : wsOk [sp] := by
+  rw [sp, wsOk_cons_ws]
+  exact ⟨by intro c hc; simp at hc; exact Or.inl hc, wsOk_nil⟩
+theorem wsOk_ptok (t : Tok) : wsOk [ptok t] := by
+  rw [ptok, wsOk_cons_ft]; exact wsOk_nil
+theorem wsOk_ptokc (d : Delim) : wsOk [.ft (.c d)] := by
+  rw [wsOk_cons_ft]; exact wsOk_nil
+theorem wsOk_single_ws {cs : List Char} (h : ∀ c ∈ cs, blankChar c) : wsOk [.ws cs] := by
+  rw [wsOk_cons_ws]; exact ⟨h, wsOk_nil⟩
+
+theorem mem_of_mem_dropLast {α : Type} {a : α} : ∀ {l : List α}, a ∈ l.dropLast → a ∈ l
+  | [], h => by cases h
+  | [_], h => by cases h
+  | x :: y :: rest, h => by
+    simp only [List.dropLast_cons₂] at h
+    rcases List.mem_cons.mp h with h | h
+    · exact h ▸ List.mem_cons_self
+    · exact List.mem_cons_of_mem _ (mem_of_mem_dropLast h)
+
+theorem wsOk_dropLast {ps : List Piece} (h : wsOk ps) : wsOk ps.dropLast := by
+  intro cs hc
+  exact h cs (mem_of_mem_dropLast hc)
+
+theorem wsOk_popChar {ps : List Piece} (h : wsOk ps) : wsOk (popChar ps) := by
+  unfold popChar
+  split
+  · exact wsOk_nil
+  · rename_i cs hl
+    split
+    · exact wsOk_dropLast h
+    · rw [wsOk_append]
+      refine ⟨wsOk_dropLast h, wsOk_single_ws ?_⟩
+      intro c hc
+      exact h cs (List.mem_of_getLast? hl) c (mem_of_mem_dropLast hc)
+  · split
+    · exact wsOk_dropLast h
+    · rw [wsOk_append]
+      refine ⟨wsOk_dropLast h, ?_⟩
+      rw [wsOk_cons_ft]; exact wsOk_nil
+  · exact wsOk_dropLast h
+
+theorem indent_blank {self : Indent} {config : Config} {offset : Nat} {s : List Char}
+    (h : self.to_string_inner config offset = .ok s) : ∀ c ∈ s, blankChar c := by
+  unfold Indent.to_string_inner at h
+  simp only at h
+  split at h
+  · cases h
+  · split at h
+    · unfold sliceInclusive at h
+      split at h
+      · injection h with h
+        subst h
+        intro c hc
+        have := List.mem_of_mem_drop (List.mem_of_mem_take hc)
+        simp [INDENT_BUFFER] at this
+        rcases this with h1 | h1
+        · exact Or.inr (Or.inl h1)
+        · exact Or.inl h1
+      · cases h
+    · injection h with h
+      subst h
+      intro c hc
+      simp only [List.mem_append, List.mem_replicate] at hc
+      rcases hc with (hc | hc) | hc
+      · split at hc
+        · simp at hc; exact Or.inr (Or.inl hc)
+        · cases hc
+      · exact Or.inr (Or.inr hc.2)
+      · exact Or.inl hc.2
+
+theorem liftPanic_indent_blank {self : Indent} {config : Config} {s : List Char}
+    (h : liftPanic (self.to_string_with_newline config) = .ok s) : ∀ c ∈ s, blankChar c := by
+  unfold liftPanic at h
+  split at h
+  · rename_i a ha
+    injection h with h
+    subst h
+    exact indent_blank ha
+  · cases h
+
+mutual
+def Arg.wsOk : Arg → Prop
+  | .metaVar _ name => RF.MacroFmt.wsOk name
+  | .repeat _ args another _ => argsWsOk args ∧ RF.MacroFmt.wsOk (another.getD [])
+  | .delimited _ args => argsWsOk args
+  | .separator s pre => RF.MacroFmt.wsOk s ∧ RF.MacroFmt.wsOk pre
+  | .other inner pre => RF.MacroFmt.wsOk inner ∧ RF.MacroFmt.wsOk pre
+def argsWsOk : List Arg → Prop
+  | [] => True
+  | a :: as => a.wsOk ∧ argsWsOk as
+end
+
+theorem argsWsOk_append {a b : List Arg} : argsWsOk (a ++ b) ↔ argsWsOk a ∧ argsWsOk b := by
+  induction a with
+  | nil => simp [argsWsOk]
+  | cons x xs ih => simp [argsWsOk, ih, and_assoc]
+
+theorem delimTokenToStr_ws {config : Config} {d : Delim} {shape : Shape} {multi ie : Bool}
+    {lhs rhs : List Piece} (h : delimTokenToStr config d shape multi ie = .ok (lhs, rhs)) :
+    wsOk lhs ∧ wsOk rhs := by
+  have hpad : ∀ b : Bool, wsOk (if b then [sp] else []) := by
+    intro b; cases b
+    · exact wsOk_nil
+    · exact wsOk_sp
+  unfold delimTokenToStr at h
+  simp only at h
+  split at h
+  · split at h
+    · cases h
+    · rename_i ind hind
+      split at h
+      · cases h
+      · rename_i nested hnested
+        injection h with h
+        injection h with h1 h2
+        subst h1; subst h2
+        constructor
+        · rw [wsOk_append, wsOk_cons_ft]
+          exact ⟨hpad _, wsOk_single_ws (liftPanic_indent_blank hnested)⟩
+        · rw [wsOk_cons_ws, wsOk_append]
+          exact ⟨liftPanic_indent_blank hind, hpad _, wsOk_ptokc d⟩
+  · injection h with h
+    injection h with h1 h2
+    subst h1; subst h2
+    constructor
+    · rw [wsOk_cons_ft]; exact hpad _
+    · rw [wsOk_append]; exact ⟨hpad _, wsOk_ptokc d⟩
+
+
+theorem wrapInnerWith_ws {config : Config} {shape : Shape} {multi : Bool}
+    {loop : List Char → R (List Piece)} {ps : List Piece}
+    (hl : ∀ s ps, (∀ c ∈ s, blankChar c) → loop s = .ok ps → wsOk ps)
+    (h : wrapInnerWith config shape multi loop = .ok ps) : wsOk ps := by
+  unfold wrapInnerWith at h
+  split at h
+  · cases h
+  · rename_i ind hind
+    split at h
+    · cases h
+    · rename_i result hr
+      split at h
+      · cases h
+      · injection h with h
+        subst h
+        exact hl _ _ (liftPanic_indent_blank hind) hr
+
+theorem rewriteDelimitedWith_ws {config : Config} {shape : Shape} {d : Delim}
+    {wrap : Shape → R (List Piece)} {ps : List Piece}
+    (hw : ∀ sh ps, wrap sh = .ok ps → wsOk ps)
+    (h : rewriteDelimitedWith config shape d wrap = .ok ps) : wsOk ps := by
+  unfold rewriteDelimitedWith at h
+  split at h
+  · cases h
+  · rename_i inner hi
+    split at h
+    · cases h
+    · rename_i lhs rhs hd
+      have ⟨hl, hr⟩ := delimTokenToStr_ws hd
+      split at h
+      · injection h with h
+        subst h
+        rw [wsOk_append, wsOk_append]
+        exact ⟨⟨hl, hw _ _ hi⟩, hr⟩
+      · split at h
+        · cases h
+        · rename_i lhs2 rhs2 hd2
+          have ⟨hl2, hr2⟩ := delimTokenToStr_ws hd2
+          split at h
+          · cases h
+          · rename_i inner2 hi2
+            injection h with h
+            subst h
+            rw [wsOk_append, wsOk_append]
+            exact ⟨⟨hl2, hw _ _ hi2⟩, hr2⟩
+
+theorem wrapGlue_ws (multi : Bool) (ind : List Char) (arg : Arg) (next : Option Arg)
+    (X : List Piece) (hind : ∀ c ∈ ind, blankChar c) (hX : wsOk X) :
+    wsOk (wrapGlue multi ind arg next X) := by
+  have h1 : wsOk ((if arg.endsWithSpace = true then popChar X else X) ++ [Piece.ws ind]) := by
+    rw [wsOk_append]
+    refine ⟨?_, wsOk_single_ws hind⟩
+    split
+    · exact wsOk_popChar hX
+    · exact hX
+  have h2 : wsOk (X ++ [sp]) := wsOk_append.mpr ⟨hX, wsOk_sp⟩
+  unfold wrapGlue
+  cases next with
+  | none =>
+    simp only
+    split
+    · exact h1
+    · exact hX
+  | some n =>
+    simp only
+    split
+    · exact h1
+    · split
+      · exact h2
+      · exact hX
+
+mutual
+theorem rewriteArg_ws (config : Config) :
+    ∀ (a : Arg) (shape : Shape) (ps : List Piece), a.wsOk → rewriteArg config shape a = .ok ps → wsOk ps
+  | .metaVar ty name, shape, ps, ha, h => by
+    simp [rewriteArg] at h
+    subst h
+    simp only [Arg.wsOk] at ha
+    rw [ptok, wsOk_cons_ft, wsOk_append]
+    exact ⟨ha, by rw [ptok, wsOk_cons_ft]; exact wsOk_ptok _⟩
+  | .repeat d args another tok, shape, ps, ha, h => by
+    simp only [rewriteArg] at h
+    simp only [Arg.wsOk] at ha
+    split at h
+    · cases h
+    · rename_i b hb
+      injection h with h
+      subst h
+      have hT : wsOk b := by
+        refine rewriteDelimitedWith_ws ?_ hb
+        intro sh ps hps
+        rcases retry_ok hps with h1 | h1
+        · exact wrapInnerWith_ws (fun s ps hs hl => wrapLoop_ws config args sh false s [] ps ha.1 hs wsOk_nil hl) h1
+        · exact wrapInnerWith_ws (fun s ps hs hl => wrapLoop_ws config args sh true s [] ps ha.1 hs wsOk_nil hl) h1
+      rw [ptok, wsOk_cons_ft, wsOk_append, wsOk_append]
+      exact ⟨⟨hT, ha.2⟩, wsOk_ptok _⟩
+  | .delimited d args, shape, ps, ha, h => by
+    simp only [rewriteArg] at h
+    simp only [Arg.wsOk] at ha
+    refine rewriteDelimitedWith_ws ?_ h
+    intro sh ps hps
+    rcases retry_ok hps with h1 | h1
+    · exact wrapInnerWith_ws (fun s ps hs hl => wrapLoop_ws config args sh false s [] ps ha hs wsOk_nil hl) h1
+    · exact wrapInnerWith_ws (fun s ps hs hl => wrapLoop_ws config args sh true s [] ps ha hs wsOk_nil hl) h1
+  | .separator s pre, shape, ps, ha, h => by
+    simp [rewriteArg] at h
+    subst h
+    simp only [Arg.wsOk] at ha
+    rw [wsOk_append, wsOk_append]
+    exact ⟨ha.2, ha.1, wsOk_sp⟩
+  | .other inner pre, shape, ps, ha, h => by
+    simp [rewriteArg] at h
+    subst h
+    simp only [Arg.wsOk] at ha
+    rw [wsOk_append]
+    exact ⟨ha.2, ha.1⟩
+theorem wrapLoop_ws (config : Config) :
+    ∀ (args : List Arg) (shape : Shape) (multi : Bool) (ind : List Char) (acc ps : List Piece),
+      argsWsOk args → (∀ c ∈ ind, blankChar c) → wsOk acc →
+      wrapLoop config shape multi ind acc args = .ok ps → wsOk ps
+  | [], shape, multi, ind, acc, ps, _, _, hacc, h => by
+    simp [wrapLoop] at h
+    subst h
+    exact hacc
+  | arg :: rest, shape, multi, ind, acc, ps, ha, hind, hacc, h => by
+    simp only [wrapLoop] at h
+    simp only [argsWsOk] at ha
+    split at h
+    · cases h
+    · rename_i r hr
+      have hr' := rewriteArg_ws config arg shape r ha.1 hr
+      exact wrapLoop_ws config rest shape multi ind _ ps ha.2 hind
+        (wrapGlue_ws multi ind arg rest.head? _ hind (wsOk_append.mpr ⟨hacc, hr'⟩)) h
+end
+
+theorem wrapMacroArgs_ws {config : Config} {shape : Shape} {args : List Arg} {ps : List Piece}
+    (ha : argsWsOk args) (h : wrapMacroArgs config shape args = .ok ps) : wsOk ps := by
+  unfold wrapMacroArgs at h
+  rcases retry_ok h with h1 | h1
+  · exact wrapInnerWith_ws (fun s ps hs hl => wrapLoop_ws config args shape false s [] ps ha hs wsOk_nil hl) h1
+  · exact wrapInnerWith_ws (fun s ps hs hl => wrapLoop_ws config args shape true s [] ps ha hs wsOk_nil hl) h1
+
+/-- the parser state holds only blanks between its tokens -/
+def PState.wsGood (s : PState) : Prop :=
+  wsOk s.buf ∧ argsWsOk s.result ∧
+  (match s.mode with | .rep _ args _ => argsWsOk args | _ => True)
+
+theorem PState.wsOk_pre (s : PState) : wsOk s.pre := by
+  unfold PState.pre
+  split
+  · exact wsOk_sp
+  · exact wsOk_nil
+
+theorem wsGood_init : PState.wsGood {} := ⟨wsOk_nil, trivial, trivial⟩
+
+theorem stepTok_ws {s s' : PState} {t : Tok} (hg : s.wsGood) (h : stepTok s t = some s') :
+    s'.wsGood := by
+  obtain ⟨buf, startTok, isMetaVar, lastTok, result, mode⟩ := s
+  obtain ⟨hb, hr, hm⟩ := hg
+  simp only at hb hr hm
+  cases mode with
+  | frag c =>
+    simp only [stepTok] at h
+    split at h
+    · injection h with h
+      subst h
+      exact ⟨wsOk_nil, argsWsOk_append.mpr ⟨hr, ⟨hb, trivial⟩⟩, trivial⟩
+    · cases h
+  | rep d args buffer =>
+    cases buffer with
+    | none =>
+      simp only [stepTok] at h
+      split at h
+      · simp at h
+        subst h
+        exact ⟨hb, argsWsOk_append.mpr ⟨hr, ⟨⟨hm, wsOk_nil⟩, trivial⟩⟩, trivial⟩
+      · split at h
+        · cases h
+        · simp at h
+          subst h
+          exact ⟨hb, hr, hm⟩
+    | some b =>
+      simp only [stepTok] at h
+      split at h
+      · split at h
+        · cases h
+        · simp at h
+          subst h
+          refine ⟨hb, argsWsOk_append.mpr ⟨hr, ⟨⟨hm, ?_⟩, trivial⟩⟩, trivial⟩
+          split
+          · exact wsOk_nil
+          · exact wsOk_ptok b
+      · split at h
+        · cases h
+        · simp at h
+  | normal =>
+    simp only [stepTok] at h
+    split at h
+    · split at h
+      · cases h
+      · injection h with h
+        subst h
+        split
+        · exact ⟨wsOk_nil, argsWsOk_append.mpr ⟨hr, ⟨⟨hb, PState.wsOk_pre _⟩, trivial⟩⟩, trivial⟩
+        · exact ⟨hb, hr, trivial⟩
+    · split at h
+      · injection h with h
+        subst h
+        exact ⟨hb, hr, trivial⟩
+      · split at h
+        · cases h
+        · injection h with h
+          subst h
+          obtain ⟨mid, hbuf, hmid, hres, hmode, _, hmid2⟩ :=
+            updateBuffer_spec ⟨buf, startTok, isMetaVar, lastTok, result, .normal⟩ t
+          have hmid' : wsOk mid := by
+            rcases hmid2 with rfl | rfl
+            · exact wsOk_nil
+            · exact wsOk_sp
+          generalize PState.updateBuffer ⟨buf, startTok, isMetaVar, lastTok, result, .normal⟩ t = u at *
+          obtain ⟨ubuf, ust, umv, ult, ures, umode⟩ := u
+          simp at hbuf hres hmode
+          subst hbuf hres hmode
+          exact ⟨wsOk_append.mpr ⟨hb, wsOk_append.mpr ⟨hmid', wsOk_ptok t⟩⟩, hr, trivial⟩
+
+theorem stepDelim_ws {s s' : PState} {d : Delim} {sub : Option (List Arg)}
+    (hsub : ∀ args, sub = some args → argsWsOk args) (hg : s.wsGood)
+    (h : stepDelim s d sub = some s') : s'.wsGood := by
+  obtain ⟨buf, startTok, isMetaVar, lastTok, result, mode⟩ := s
+  obtain ⟨hb, hr, _⟩ := hg
+  simp only at hb hr
+  cases mode with
+  | frag c => simp [stepDelim] at h
+  | rep d args buffer => simp [stepDelim] at h
+  | normal =>
+    cases sub with
+    | none =>
+      simp only [stepDelim] at h
+      split at h <;> simp_all
+    | some args =>
+      have ha := hsub args rfl
+      by_cases hbe : (PState.bufEmpty ⟨buf, startTok, isMetaVar, lastTok, result, .normal⟩) = true
+      · cases isMetaVar with
+        | true =>
+          simp [stepDelim, hbe] at h
+          subst h
+          exact ⟨hb, hr, ha⟩
+        | false =>
+          simp [stepDelim, hbe] at h
+          subst h
+          exact ⟨hb, argsWsOk_append.mpr ⟨hr, ⟨ha, trivial⟩⟩, trivial⟩
+      · have hb' : (PState.bufEmpty ⟨buf, startTok, isMetaVar, lastTok, result, .normal⟩) = false := by
+          simpa using hbe
+        cases isMetaVar with
+        | true => simp [stepDelim, hb'] at h
+        | false =>
+          by_cases hn : nextSpace lastTok = .always
+          · simp [stepDelim, hb', hn, PState.addSeparator] at h
+            subst h
+            exact ⟨wsOk_nil, by
+              simp only [argsWsOk_append, argsWsOk, Arg.wsOk]
+              exact ⟨hr, ⟨hb, PState.wsOk_pre _⟩, ha, trivial⟩, trivial⟩
+          · simp [stepDelim, hb', hn, PState.addOther] at h
+            subst h
+            exact ⟨wsOk_nil, by
+              simp only [argsWsOk_append, argsWsOk, Arg.wsOk]
+              exact ⟨hr, ⟨hb, PState.wsOk_pre _⟩, ha, trivial⟩, trivial⟩
+
+theorem finish_ws {s : PState} {args : List Arg} (hg : s.wsGood) (h : finish s = some args) :
+    argsWsOk args := by
+  obtain ⟨buf, startTok, isMetaVar, lastTok, result, mode⟩ := s
+  obtain ⟨hb, hr, _⟩ := hg
+  simp only at hb hr
+  cases mode with
+  | frag c => simp [finish] at h
+  | rep d a b => simp [finish] at h
+  | normal =>
+    simp only [finish] at h
+    split at h
+    · cases h
+    · split at h
+      · injection h with h
+        subst h
+        simp only [PState.addOther, argsWsOk_append, argsWsOk, Arg.wsOk]
+        exact ⟨hr, ⟨hb, PState.wsOk_pre _⟩, trivial⟩
+      · injection h with h
+        subst h
+        exact hr
+
+mutual
+theorem stepTT_ws : ∀ (t : TT) (s s' : PState), s.wsGood → stepTT s t = some s' → s'.wsGood
+  | .tok t, s, s', hg, h => by
+    simp only [stepTT] at h
+    exact stepTok_ws hg h
+  | .delim d inner, s, s', hg, h => by
+    simp only [stepTT] at h
+    refine stepDelim_ws ?_ hg h
+    intro args hargs
+    split at hargs
+    · cases hargs
+    · rename_i sub hsub
+      exact finish_ws (parseList_ws inner {} sub wsGood_init hsub) hargs
+theorem parseList_ws : ∀ (ts : List TT) (s s' : PState), s.wsGood → parseList s ts = some s' → s'.wsGood
+  | [], s, s', hg, h => by
+    simp [parseList] at h
+    subst h
+    exact hg
+  | t :: ts, s, s', hg, h => by
+    simp only [parseList] at h
+    split at h
+    · cases h
+    · rename_i s1 h1
+      exact parseList_ws ts s1 s' (stepTT_ws t s s1 hg h1) h
+end
+
+theorem parse_ws {ts : List TT} {args : List Arg} (h : parseMatcher ts = some args) : argsWsOk args := by
+  unfold parseMatcher at h
+  split at h
+  · cases h
+  · rename_i s hs
+    exact finish_ws (parseList_ws ts {} s wsGood_init hs) h
 
 end RF.MacroFmt
